@@ -81,8 +81,9 @@ def family_args(draw):
         alpha = draw(st.one_of(_fl(0.3, 8), st.integers(1, 8).map(float), st.just(1.0)))
         return fam, [alpha, draw(_logfl(0.05, 10))]
     if fam == "beta":
-        a = draw(st.one_of(_fl(0.3, 6), st.integers(1, 6).map(float), st.just(1.0)))
-        b = draw(st.one_of(_fl(0.3, 6), st.integers(1, 6).map(float), st.just(1.0)))
+        big = draw(st.integers(0, 5)) == 0          # sharply peaked priors (shape sums in the hundreds) now and then
+        a = draw(st.one_of(_fl(0.3, 6), st.integers(1, 6).map(float), st.just(1.0))) if not big else draw(_fl(20, 300))
+        b = draw(st.one_of(_fl(0.3, 6), st.integers(1, 6).map(float), st.just(1.0))) if not big else draw(_fl(20, 300))
         return fam, [a, b]
     if fam == "log-uniform":
         a = draw(_logfl(1e-3, 1e2))
@@ -131,7 +132,7 @@ def cases(draw):
     n = draw(st.sampled_from([1, 1, 2, 3, 4]))
     params = [draw(one_param(i)) for i in range(n)]
     surface = draw(st.sampled_from(["check_prior"] * 4 + ["posterior"]))
-    case = {"kind": "prior", "params": params, "surface": surface}
+    case = {"kind": "prior", "params": params, "surface": surface, "log_space": draw(st.booleans())}
     if draw(st.integers(0, 2)) == 0:
         case["warmup"] = [draw(one_param(i)) for i in range(n)]
         case["switch"] = draw(st.sampled_from(["assign", "in_place"]))
@@ -253,7 +254,22 @@ def check(case):
                 pidset = InferenceSetup(Model=M, exp_data=df, measurements=["X"], time_column="time",
                                         params_to_estimate=names, prior=prior,
                                         initial_conditions={"X": 10.0}, sim_type="deterministic", norm_order=2)
-                cost = float(pidset.cost_function(theta))
+                if case.get("log_space") and np.all(theta > 0):
+                    # the sampler works on u = log(theta): the prior is the density at exp(u) (which may differ from theta
+                    # by an ulp - decisive exactly on a support boundary - so the expectation is recomputed at exp(u))
+                    pidset.setup_cost_function(log_space_parameters=True)
+                    res.label("surface:posterior:log_space_parameters")
+                    u = np.log(theta)
+                    eff = np.exp(u)
+                    all_inside, ref_total = True, 0.0
+                    for p_, v_ in zip(params, eff):
+                        ins = in_support(p_["family"], p_["args"], float(v_)) and not (p_["positive"] and v_ < 0)
+                        all_inside = all_inside and ins
+                        if ins:
+                            ref_total += ref_logpdf(p_["family"], p_["args"], float(v_))
+                    cost = float(pidset.cost_function(u))
+                else:
+                    cost = float(pidset.cost_function(theta))
         if all_inside and math.isfinite(ref_total):
             if not (math.isfinite(cost) and abs(cost - ref_total) <= 1e-5 * (1 + abs(ref_total))):
                 if not res.fails:
